@@ -135,6 +135,21 @@ CLAIMED["C10"] = dict(category="exploration",
          "byte-level corruptions. TLA+ contributes the definition and exhaustive enumeration of the structured space; 'all byte strings' is sampled.",
     design="6/C10 and 8", technique="TLA+ enumeration of the structured adversarial input space (TLC) + isolated-worker replay; seeded byte corruption",
     note="Exploration level: the space of all byte strings cannot be enumerated; coverage = spec-defined field/boundary combinations + random corruption.")
+CLAIMED["C14"] = dict(category="model_checking",
+    text="Grammar.tla generates expression trees and renders them with exactly the parentheses the documented precedence/associativity "
+         "table requires; TLC checks Denotes (Expr.tla's stack machine on the expected postfix form yields the value of the tree) for all "
+         "trees with <=2 operators. GrammarElems.tla generates every element kind over 13 term forms with its denotation and the documented "
+         "error classes. Every token list is laid out with seeded whitespace, parsed by the FromString* functions and a shared Parser and "
+         "compared with the denotation; parsed elements are used (builder, block builder, authorizer); 6k/100k token-level corruptions run "
+         "with oracle 'no panic'.",
+    design="6/C14", technique="TLA+ grammar generator with denotation (TLC theorem Denotes); spec->code replay of generated texts; seeded token corruption",
+    note="The grammar is a generator, not a recogniser: outside the generated language only 'no panic' is decided. Trusted: TLC, Expr.tla operator table.")
+CLAIMED["C15"] = dict(category="model_checking",
+    text="Same generators restricted to the printable domain. Every generated block / expression is parsed, placed in authority and in later "
+         "position of a real token; the text printed by Code() and String() is parsed back and must equal the original parse structurally, "
+         "before and after Serialize/Unmarshal, and the printed form must not change across serialization.",
+    design="6/C15", technique="TLA+ grammar generator (TLC); spec->code replay: parse, print inside a token, re-parse, compare",
+    note="String() lists are unambiguous only for <=1 fact/rule/check per block; richer blocks are inspected through Code(). Sets of strings are outside the property's printable domain.")
 CLAIMED["C18"] = dict(category="model_checking",
     text="Lifecycle.tla models SerializePolicies/LoadPolicies; TLC checks SnapshotEquiv and SaveRefusedIffEvaluated over all histories "
          "(3x3 tokens x 24 contents x evaluated/unevaluated) and exports them; replay saves on the real authorizer, loads into a fresh one "
